@@ -103,6 +103,8 @@ impl<I: RecvmsgSyscall> RecvmsgSyscall for NioRecvmsgSyscall<I> {
                 };
                 r = self.inner.recvmsg(fn_ptr, fd, &raw mut arg, flags);
                 if r == 0 {
+                    // end of stream: report what was received before it
+                    r = received.try_into().expect("received overflow");
                     std::mem::forget(vec);
                     if blocking {
                         set_blocking(fd);
